@@ -202,7 +202,7 @@ func classify(prop string, o *outcome) (nontrivial bool, feature uint64, classes
 	add(has("verify-while-a-snapshot-is-in-flight"), "verify-while-a-snapshot-is-in-flight")
 	add(has("acked-entry-applied-in-one-batch-behind-an-inherited-command"), "acked-entry-batched-behind-inherited-command")
 	add(has("apply-ok"), "apply-ok")
-	for _, k := range []string{"second-membership-change-requested-while-the-first-cannot-commit", "server-removed-while-verifyleader-waits-for-its-answer", "successor-crashed-before-catching-up-its-voter", "leader-keeps-a-bare-majority-through-a-voter-back-from-a-long-outage", "old-installsnapshot-copy-reaches-a-restarted-follower", "figure8-leader-again-with-old-term-tail", "figure8-old-term-entries-on-a-majority-without-the-new-terms-no-op", "figure8-overwriting-leader-elected"} {
+	for _, k := range []string{"server-added-while-verifyleader-waits", "second-membership-change-requested-while-the-first-cannot-commit", "server-removed-while-verifyleader-waits-for-its-answer", "successor-crashed-before-catching-up-its-voter", "leader-keeps-a-bare-majority-through-a-voter-back-from-a-long-outage", "old-installsnapshot-copy-reaches-a-restarted-follower", "figure8-leader-again-with-old-term-tail", "figure8-old-term-entries-on-a-majority-without-the-new-terms-no-op", "figure8-overwriting-leader-elected"} {
 		add(has(k), k)
 	}
 	switch prop {
